@@ -313,7 +313,7 @@ def attributed(c, prop):
 def classify(h, r, prop=None):
     """-> (verdict, failing_checks, notes).  verdict in pass|fail|inconclusive"""
     checks = r['checks']
-    if prop:
+    if prop and prop != 'ALL':
         checks = [c for c in checks if c['status'] != 'Failure' or attributed(c, prop)]
     st = r['status']
     err = r.get('error', {})
@@ -460,11 +460,11 @@ def match_known(known, prop, h, c):
 def select(harnesses, prop, tier, only=None):
     sel = []
     for h in harnesses:
-        if prop not in h.props:
+        if prop != 'ALL' and prop not in h.props:
             continue
         if only and not re.search(only, h.name):
             continue
-        if tier == 'quick' and h.tier != 'quick':
+        if tier == 'quick' and h.tier != 'quick' and not only:
             continue
         sel.append(h)
     return sel
